@@ -9,7 +9,7 @@
 //	            S: nodeSize,listSize,topIndex;block;block...        SQ: front,rear,len(list)
 //
 // A panic inside an operation is reported as PANIC and ends the case; a case that does not finish
-// within the deadline is cut with HANG for the operation in flight and the process exits 4.
+// within the deadline (2 s per case) is cut with HANG for the operation in flight and the process exits 4.
 package main
 
 import (
@@ -18,7 +18,7 @@ import (
 	"os"
 	"strconv"
 	"strings"
-	"sync/atomic"
+	"sync"
 	"time"
 
 	"github.com/moorara/algo/list"
@@ -202,30 +202,43 @@ func runCase(head string, ops []string) {
 		return
 	}
 	w.Begin("%s", head)
-	var cur atomic.Value
-	cur.Store("")
+	// results of the finished ops and the op in flight, shared with the watchdog
 	type item struct{ op, res string }
-	done := make(chan []item, 1)
+	var mu sync.Mutex
+	var out []item
+	cur := ""
+	done := make(chan struct{}, 1)
 	go func() {
-		var out []item
 		for _, op := range ops {
-			cur.Store(op)
+			mu.Lock()
+			cur = op
+			mu.Unlock()
 			r := in.exec(op)
+			mu.Lock()
 			out = append(out, item{op, r})
+			cur = ""
+			mu.Unlock()
 			if r == "PANIC" {
 				break
 			}
 		}
-		done <- out
+		done <- struct{}{}
 	}()
 	select {
-	case out := <-done:
+	case <-done:
 		for _, it := range out {
 			w.Op(it.op, it.res)
 		}
 		w.End()
-	case <-time.After(20 * time.Second):
-		w.Op(cur.Load().(string), "HANG")
+	case <-time.After(2 * time.Second):
+		// the worker is stuck inside an operation (it does not hold the lock there)
+		mu.Lock()
+		for _, it := range out {
+			w.Op(it.op, it.res)
+		}
+		if cur != "" {
+			w.Op(cur, "HANG")
+		}
 		w.Flush()
 		os.Exit(4)
 	}
